@@ -73,6 +73,8 @@ pub struct WorkerReport {
     pub wall_s: f64,
     #[serde(default)]
     pub corpus_runs: u64,
+    #[serde(default)]
+    pub extra_runs: u64,
     /// (harvest key, explicit spec) of clean runs that reached a rare condition
     #[serde(default)]
     pub candidates: Vec<(String, Value)>,
@@ -171,7 +173,7 @@ pub fn load_corpus(property: &str) -> Vec<Value> {
     text.lines().filter_map(|l| serde_json::from_str::<Value>(l).ok()).filter_map(|v| v.get("spec").cloned()).collect()
 }
 
-pub fn worker<E: Engine>(env: &Env, base: u64, p: u64, workers: u64, total: u64, out_prefix: &Path) -> Result<(), String> {
+pub fn worker<E: Engine>(env: &Env, base: u64, p: u64, workers: u64, total: u64, out_prefix: &Path, extra: &[u64]) -> Result<(), String> {
     let t0 = std::time::Instant::now();
     let g = derive(base, "global", p);
     warm_up::<E>(env, g);
@@ -181,10 +183,20 @@ pub fn worker<E: Engine>(env: &Env, base: u64, p: u64, workers: u64, total: u64,
     let mut recent: std::collections::VecDeque<E::Spec> = std::collections::VecDeque::new();
     let corpus: Vec<E::Spec> = load_corpus(E::PROPERTY).into_iter().filter_map(|v| serde_json::from_value(v).ok()).collect();
     let mut harvest_seen: std::collections::HashMap<String, u32> = std::collections::HashMap::new();
+    // run sources: the seeded batch [0,total), then the corpus, then extra run indices
+    // (deeper exploration of scenario files that changed since the corpus was recorded)
+    let n_all = total + corpus.len() as u64 + extra.len() as u64;
     let mut i = p;
-    while i < total + corpus.len() as u64 {
-        let from_corpus = i >= total;
-        let spec = if from_corpus { corpus[(i - total) as usize].clone() } else { E::plan(env, base, i) };
+    while i < n_all {
+        let from_corpus = i >= total && i < total + corpus.len() as u64;
+        let spec = if from_corpus {
+            corpus[(i - total) as usize].clone()
+        } else if i >= total + corpus.len() as u64 {
+            rep.extra_runs += 1;
+            E::plan(env, base, extra[(i - total - corpus.len() as u64) as usize])
+        } else {
+            E::plan(env, base, i)
+        };
         let (o, resolved) = E::execute(env, &spec);
         rep.runs += 1;
         if from_corpus {
@@ -243,29 +255,67 @@ pub fn worker<E: Engine>(env: &Env, base: u64, p: u64, workers: u64, total: u64,
                     rspec = start.clone();
                     rviol = v.clone();
                     let hist: Vec<E::Spec> = recent.iter().cloned().collect();
-                    'depth: for depth in 1..=hist.len() {
-                        let pre = &hist[hist.len() - depth..];
-                        for attempt in 0..2 {
+                    // does `pre` (executed first, results ignored) bring the violation back, twice, identically?
+                    let mut brings_back = |pre: &[E::Spec], rviol: &mut Violation| -> bool {
+                        let mut first: Option<Violation> = None;
+                        for _attempt in 0..2 {
                             for ps in pre {
                                 let _ = E::execute(env, ps);
                             }
                             let (o, _) = E::execute(env, &start);
-                            match o.violation {
-                                Some(a) if a.class == v.class => {
-                                    if attempt == 0 {
-                                        rviol = a;
-                                    } else if a.digest() == rviol.digest() {
-                                        prefix = pre.to_vec();
-                                        reproducible = true;
-                                        break 'depth;
-                                    }
+                            match (o.violation, &first) {
+                                (Some(a), None) if a.class == v.class => first = Some(a),
+                                (Some(a), Some(f)) if a.class == v.class && a.digest() == f.digest() => {
+                                    *rviol = a;
+                                    return true;
                                 }
-                                _ => break,
+                                _ => return false,
                             }
                         }
+                        false
+                    };
+                    // shortest recent suffix first (the usual case: the previous run left something behind) …
+                    let mut found: Option<Vec<E::Spec>> = None;
+                    for depth in [1usize, 2, 3, 8, 32, hist.len()] {
+                        let depth = depth.min(hist.len());
+                        if depth == 0 {
+                            break;
+                        }
+                        let pre = hist[hist.len() - depth..].to_vec();
+                        if brings_back(&pre, &mut rviol) {
+                            found = Some(pre);
+                            break;
+                        }
+                    }
+                    // … then drop whatever part of that history is not needed (chunks, then single runs)
+                    if let Some(mut pre) = found {
+                        let mut chunk = pre.len() / 2;
+                        while chunk >= 1 && pre.len() > 1 {
+                            let mut k = 0;
+                            let mut removed_any = false;
+                            while k < pre.len() && pre.len() > 1 {
+                                let end = (k + chunk).min(pre.len());
+                                let mut cand = pre.clone();
+                                cand.drain(k..end);
+                                if !cand.is_empty() && brings_back(&cand, &mut rviol) {
+                                    pre = cand;
+                                    removed_any = true;
+                                } else {
+                                    k = end;
+                                }
+                            }
+                            if !removed_any || chunk == 1 {
+                                if chunk == 1 {
+                                    break;
+                                }
+                            }
+                            chunk /= 2;
+                        }
+                        prefix = pre;
+                        reproducible = true;
                     }
                     if !reproducible {
-                        prefix = hist;
+                        prefix = hist.iter().rev().take(8).rev().cloned().collect();
                     }
                 }
                 let path = write_replay::<E>(g, &rspec, &rviol, json!({"base_seed": base, "run_index": i, "worker": p, "workers": workers, "shrink_tried": s.tried, "shrink_accepted": s.accepted}), &prefix, reproducible)?;
@@ -285,7 +335,7 @@ pub fn worker<E: Engine>(env: &Env, base: u64, p: u64, workers: u64, total: u64,
             }
         }
         recent.push_back(spec);
-        if recent.len() > 3 {
+        if recent.len() > 256 {
             recent.pop_front();
         }
         i += workers;
